@@ -16,11 +16,11 @@ RULE = (
     "(cascade: style > attribute > inherited; proper group opacity; source-over) comparing the composited RGBA "
     "(tolerance 1.5/255) and the ordered paint stack at every mutually trusted point (epsilon band 0.4%). "
     "Non-trivial = >=20 trusted points, >=5 covered, and the source sets a cascade property on a group/use/root or has "
-    "a style-vs-attribute conflict; distinct = distinct source text."
+    "a style-vs-attribute conflict; distinct = distinct source text. Sub-check stroke: the same with strokes (own or inherited from groups, via attribute or style) on shapes whose fill is none, i.e. the property's scope where only one of fill and stroke is visible, so that element, group and root opacity above stroked content is exercised; documents in which the reference cascade finds a shape with both paints visible are rejected as out of scope."
 )
 ASSUMPTIONS = [
     "vlib.refsvg.render cascade/compositing (self-tested); 'inherit' and currentColor are not generated",
-    "shapes that have both a visible fill and a visible stroke together with own opacity < 1 are outside the property's scope (not generated here: no strokes in this campaign)",
+    "shapes that have both a visible fill and a visible stroke are outside the scope of the stroke sub-check (picosvg documents that their opacity cannot be preserved exactly); sub-check doc has no strokes at all",
 ]
 
 CFG = docs.Cfg(transforms=True, groups=True, use=True, nested=False, display=False, cascade=True, opacity=True, max_leaves=6)
@@ -47,6 +47,64 @@ def _strategy(ctx):
     return docs.document(CFG, hook=docs.cascade_hook, root_hook=functools.partial(docs.root_cascade_hook, allow_opacity=True))
 
 
+def _stroke_only_hook(draw, cx, n):
+    """Cascade properties plus strokes in the property's scope: a stroked shape has fill none (only one
+    of fill and stroke visible), so element/group/use opacity anywhere above it is well defined."""
+    from hypothesis import strategies as st
+
+    docs.cascade_hook(draw, cx, n)
+    if n["tag"] in ("g", "use"):
+        if draw(st.integers(0, 3)) == 0:
+            for k, v in docs._stroke_props(draw, cx, allow_dash=False).items():
+                (n["a"] if draw(st.booleans()) else n["s"])[k] = v
+            # content below must not show a fill together with this inherited stroke
+            n["a"].pop("fill", None)
+            n["s"].pop("fill", None)
+            n["s"]["fill"] = "none"
+            cx.feat.add("stroke-inherited")
+            cx.stroke_scope = True
+        return
+    if draw(st.integers(0, 2)) == 0:
+        for k, v in docs._stroke_props(draw, cx, allow_dash=False).items():
+            (n["a"] if draw(st.booleans()) else n["s"])[k] = v
+        n["a"].pop("fill", None)
+        n["s"].pop("fill", None)
+        n["a"]["fill"] = "none"
+        cx.feat.add("stroke-own")
+
+
+CFG_STROKE = docs.Cfg(transforms=True, groups=True, use=False, nested=False, display=False, cascade=True, opacity=True, stroke=True, max_leaves=5)
+
+
+def check_doc_stroke(case) -> Result:
+    r = Result()
+    src = case["svg"]
+    # scope guard (own reading of the source with the reference cascade): no rendered shape may show both a
+    # fill and a stroke - that combination with opacity is outside the property's scope
+    try:
+        from vlib.refsvg import render
+
+        sc = render.build(src)
+        if any(l.fill_paint is not None and l.stroke_paint is not None and l.fill_alpha > 0 and l.stroke_alpha > 0 for l in sc.leaves):
+            r.rejected = "scope:fill-and-stroke-both-visible"
+            return r
+    except render.Unsupported as e:
+        r.rejected = f"oracle-unsupported-src:{str(e)[:40]}"
+        return r
+    try:
+        out = rendercmp.convert(src)
+    except Exception as e:
+        r.rejected = f"convert:{type(e).__name__}"
+        return r
+    feat = case.get("feat", [])
+    r.classes = tuple(feat)
+    stats = rendercmp.compare(src, out, r, what=("stack", "rgba"), strokes=True, gradients=False, attribute=not case.get("pinned"))
+    if stats and not r.rejected:
+        r.nontrivial = bool(("stroke-own" in feat or "stroke-inherited" in feat) and any(f.endswith("-opacity") for f in feat) and stats["trusted"] >= 20 and stats["covered"] >= 5)
+    return r
+
+
 SUBCHECKS = {
-    "doc": Sub("doc", check_doc, strategy=_strategy, examples={"quick": 600, "thorough": 6000}, describe=lambda c: c["svg"]),
+    "doc": Sub("doc", check_doc, strategy=_strategy, examples={"quick": 500, "thorough": 5000}, describe=lambda c: c["svg"]),
+    "stroke": Sub("stroke", check_doc_stroke, strategy=lambda ctx: docs.document(CFG_STROKE, hook=_stroke_only_hook, root_hook=functools.partial(docs.root_cascade_hook, allow_opacity=True)), examples={"quick": 200, "thorough": 2500}, describe=lambda c: c["svg"]),
 }
